@@ -408,7 +408,8 @@ class MultiIndexLocation(IndexLocation):
 
     def detachedCopy(self) -> "MultiIndexLocation":
         loc = MultiIndexLocation(None)
-        loc.extend(self._locations)
+        # the inner locations belong to (and are cached by) the grid that is being left
+        loc.extend(location.detachedCopy() for location in self._locations)
         return loc
 
     def associate(self, grid: "Grid"):
